@@ -400,6 +400,35 @@ Theorem C05_dist_waitsome_sorted_permutation_counts : forall (A : Type) (le : A 
 Proof. exact dist_psort_w_correct. Qed.
 Print Assumptions C05_dist_waitsome_sorted_permutation_counts.
 
+(* The same WITHOUT an oracle, as a relation: `dist_psort_r counts xs ys` holds if ys is the result of SOME execution in
+   which every Waitsome loop (of every rank, in every merge step) is driven by some legal pair of answer streams, chosen
+   independently everywhere.  Every execution ends in the arrays of the sequential reference, and there is one. *)
+Theorem C05_dist_every_execution_equals_seq : forall (A : Type) (gt : A -> A -> bool) (sort : bool -> list A -> list A),
+  (forall d l, length (sort d l) = length l) ->
+  forall counts xs ys, map (@length A) xs = counts ->
+  dist_psort_r A gt sort counts xs ys <-> ys = psort A gt sort counts xs.
+Proof. exact dist_psort_r_iff. Qed.
+Print Assumptions C05_dist_every_execution_equals_seq.
+
+(* THE TEXT OF THE PROPERTY for the distributed algorithm: an execution exists, and EVERY execution - every order in which
+   the outstanding sends and receives complete - yields a globally sorted permutation with every rank's count kept *)
+Theorem C05_dist_every_execution_sorted_permutation_counts : forall (A : Type) (le : A -> A -> bool),
+  (forall a b, le a b = true \/ le b a = true) ->
+  (forall a b c, le a b = true -> le b c = true -> le a c = true) ->
+  forall sort : bool -> list A -> list A,
+  (forall d l, Permutation (sort d l) l) ->
+  (forall l, Sorted (fun a b => le a b = true) (sort true l)) ->
+  (forall l, Sorted (fun a b => le b a = true) (sort false l)) ->
+  forall counts xs, map (@length A) xs = counts ->
+  (exists ys, dist_psort_r A (gt_of A le) sort counts xs ys) /\
+  forall ys, dist_psort_r A (gt_of A le) sort counts xs ys ->
+    ys = psort A (gt_of A le) sort counts xs /\
+    StronglySorted (fun a b => le a b = true) (concat ys) /\
+    Permutation (concat ys) (concat xs) /\
+    map (@length A) ys = counts.
+Proof. exact dist_psort_r_correct. Qed.
+Print Assumptions C05_dist_every_execution_sorted_permutation_counts.
+
 (* the hypothesis on the oracle is satisfiable (receives complete one by one in reverse order, all sends are reported
    by one call), and the model computes with it *)
 Example C05_ex_legal_oracle : legal_oracle ex_oracle.
